@@ -40,12 +40,12 @@ type CallSpec struct {
 }
 
 type WorkflowSpec struct {
-	Name     string
-	Hosts    []string // value of the root `hosts` default (JSON list) → detectors of the environment
-	Tasks    []TaskSpec
-	Calls    []CallSpec
-	Vars     map[string]string
-	Defaults map[string]string
+	Name      string
+	Hosts     []string // value of the root `hosts` default (JSON list) → detectors of the environment
+	Tasks     []TaskSpec
+	Calls     []CallSpec
+	Vars      map[string]string
+	Defaults  map[string]string
 	RootExtra string
 }
 
